@@ -76,7 +76,7 @@ Init == /\ cls \in Classes /\ wts \in Weightings /\ inclass \in InputClasses
         /\ (HasChainWeights(cls) \/ wts.chain = <<1, 1>>)
         /\ (HasLoopWeights(cls) \/ wts.loop = <<1, 1, 1>>)
         /\ A \in (IF inclass = "table" THEN Tables(MaxRows) ELSE {<<>>})
-        /\ B \in (IF inclass = "table" THEN Tables(MaxRowsB) ELSE {<<>>})
+        /\ B \in (IF inclass = "table" THEN Tables(MaxRowsB) \cup {A} ELSE {<<>>})        \* incl. the self-comparison cdist(X, X)
         /\ cols = <<>> /\ todo = <<>> /\ acc = <<>> /\ err = FALSE /\ step = "start"
 
 Validate == /\ step = "start"
